@@ -32,6 +32,8 @@ type c09Case struct {
 	// "+1" cell of the configuration, modulo their number); the concurrent run must then end with the same kind
 	// of result per party (finished / error naming the same culprits / stalled) as sequential delivery.
 	Tamper int `json:",omitempty"`
+	// TamperCell: an explicit alteration (directed cases) instead of an index
+	TamperCell *faultSpec `json:",omitempty"`
 }
 
 func genC09(protos []string) func(t *rapid.T) c09Case {
@@ -44,6 +46,7 @@ func genC09(protos []string) func(t *rapid.T) c09Case {
 			extra = 0 // |S| = t+1+extra must not exceed n
 		}
 		c.Run = fixedRun(p, n, 1, extra)
+		c.Run.ShortSSID = rapid.IntRange(0, 2).Draw(t, "shortssid") == 0 // keygen: no effect
 		c.Jitter = rapid.SliceOfN(rapid.IntRange(0, 9), 8, 40).Draw(t, "jitter")
 		c.DupPct = rapid.SampledFrom([]int{0, 10, 30}).Draw(t, "dup")
 		c.Pollers = rapid.IntRange(1, 3).Draw(t, "pollers")
@@ -98,7 +101,12 @@ func runC09(c c09Case) ev.Outcome {
 	}
 	var tamper *faultSpec
 	var want []string
-	if c.Tamper > 0 {
+	if c.TamperCell != nil {
+		fc := faultCase{Run: c.Run, F: *c.TamperCell}
+		tamper = &fc.F
+		want = c09Kinds(fc)
+		out.Label = fmt.Sprintf("concurrent %s pollers=%d tampered=%s.%s[%d]", c.Run, c.Pollers, shortType(tamper.MsgType), tamper.Field.Name, tamper.Field.Idx)
+	} else if c.Tamper > 0 {
 		var cells []faultCase
 		for _, fc := range enumCells(c.Run, []string{"+1"}, nil, 0, 2) {
 			if coveredFieldKind(fc.F.MsgType, fc.F.Field.Name, "+1") && fc.F.Field.Name != "paillier_n" {
@@ -349,4 +357,42 @@ func TestC09ConcurrentEdDSA(t *testing.T) {
 func TestC09ConcurrentECDSA(t *testing.T) {
 	r := ev.New(t, "C09")
 	ev.Drive(t, r, genC09([]string{"ecdsa-signing", "ecdsa-keygen", "ecdsa-resharing"}), runC09)
+}
+
+// TestC09Directed: fixed configurations that the random generator reaches rarely: session ids with a leading
+// zero byte (the session id then travels and is extended with spare capacity), three new members with all
+// proofs on, and messages whose proof list is unparsable / wrong (the verifier goroutines' failure paths).
+func TestC09Directed(t *testing.T) {
+	r := ev.New(t, "C09")
+	jit := []int{0, 3, 1, 4, 2, 0, 5, 3, 1, 0, 4, 2}
+	mk := func(proto string, n, extra int, short bool, cell *faultSpec) c09Case {
+		run := fixedRun(proto, n, 1, extra)
+		run.ShortSSID = short
+		return c09Case{Run: run, Jitter: jit, Pollers: 2, TamperCell: cell}
+	}
+	dln := func(typ, field string, idx, dev int) *faultSpec {
+		return &faultSpec{Deviator: dev, MsgType: typ, Field: fieldRef{field, idx}, Kind: "+1", Recip: -1}
+	}
+	cases := []c09Case{
+		mk("ecdsa-resharing", 3, 1, true, nil),
+		mk("ecdsa-resharing", 3, 1, false, nil),
+		mk("ecdsa-signing", 3, 1, true, nil),
+		mk("eddsa-signing", 3, 1, true, nil),
+		mk("ecdsa-keygen", 3, 0, false, dln(pEK+"KGRound1Message", "dlnproof_1", 0, 0)), // unparsable list (count prefix)
+		mk("ecdsa-keygen", 3, 0, false, dln(pEK+"KGRound1Message", "dlnproof_2", 0, 1)),
+		mk("ecdsa-keygen", 3, 0, false, dln(pEK+"KGRound1Message", "dlnproof_1", 7, 0)), // parseable, wrong
+		mk("ecdsa-resharing", 3, 1, true, dln(pER+"DGRound2Message1", "dlnproof_1", 0, 2)),
+	}
+	if ev.Tier() == "thorough" {
+		cases = append(cases, cases...)
+		cases = append(cases, cases...)
+	}
+	shard, shards := ev.Shard()
+	var mine []c09Case
+	for i, c := range cases {
+		if i%shards == shard {
+			mine = append(mine, c)
+		}
+	}
+	ev.Each(t, r, mine, runC09)
 }
